@@ -191,13 +191,15 @@ class Generator:
                 return None
             tok = T[t]
             nullable = tok.nullable or (tok.lineage in m.padded) or tok.lineage is None or tok.kind == "opaque"
-            out.append(
-                dict(
-                    a=a,
-                    desc=self.rng.random() < 0.3,
-                    nulls=self.rng.choice(["first", "last"]) if nullable else self.rng.choice([None, None, "first", "last"]),
-                )
+            spec = dict(
+                a=a,
+                desc=self.rng.random() < 0.3,
+                nulls=self.rng.choice(["first", "last"]) if nullable else self.rng.choice([None, None, "first", "last"]),
             )
+            if tok.kind == "int" and "n" not in a and self.rng.random() < self.p.get("p_order_expr", 0.15):
+                spec["neg"] = True  # ordering key is an expression, not a plain column
+                self.m.note("order_key_expression")
+            out.append(spec)
         return out
 
     def threshold(self, pt, tok):
